@@ -237,8 +237,12 @@ def c19crossed (pre o : Obs) (evicted : List (RType × String)) : Option String 
   | [] => none
 
 /-- C19: the lookup of an evicted name subscribes again (a request naming it follows) -/
-def c19relookup (pre o : Obs) (rt : RType) (n : String) (sendOk : Bool) : Option String :=
+def c19relookup (pre o : Obs) (rt : RType) (n : String) (sendOk : Bool) (lastNonce : Option String := none) : Option String :=
   if ((pre.interest rt).getD []).contains n then none
+  else if sendOk && (match lastNonce, o.reqs.find? (fun q => q.rt = rt && q.names.contains n) with
+      | some ln, some q => q.nonce != ln
+      | _, _ => false) then
+    some s!"C19.relookup_current: {repr rt}/{n} was evicted; the request that subscribes it again echoes the nonce '{((o.reqs.find? (fun q => q.rt = rt && q.names.contains n)).map (·.nonce)).getD ""}', but the latest response of that type on this stream carried '{lastNonce.getD ""}' (it was not acknowledged): a control plane that follows the protocol ignores a request with an outdated nonce, so the lookup cannot obtain the current value"
   else if !((o.interest rt).getD []).contains n then some s!"C19.relookup_subscribes: {repr rt}/{n} was evicted; the later lookup did not put it back into the interest set (it returned {o.get})"
   else if sendOk && !(o.reqs.any (fun q => q.rt = rt && q.names.contains n)) then some s!"C19.relookup_subscribes: {repr rt}/{n} was evicted; the later lookup sent no request naming it"
   else none
